@@ -239,7 +239,22 @@ pub fn rewrite_opts<'a>(rng: &mut Rng) -> (RewriteOptions<'a>, String) {
 /// A map produced by one of the transforming operations from random inputs.
 fn produce(rng: &mut Rng) -> (DecodedMap, String, Value) {
     let cfg = super::c01::gen_cfg(rng);
-    match rng.below(3) {
+    match rng.below(4) {
+        3 => {
+            // in-place setters on a finished map (root, sources, contents), in random order
+            let m = gen_map(rng, &cfg);
+            let mut sm = m.build_raw(rng, true);
+            let n = sm.get_source_count();
+            for _ in 0..rng.range_usize(1, 5) {
+                match rng.below(3) {
+                    0 => sm.set_source_root(if rng.chance(1, 4) { None } else { Some(rng.pick(ROOT_POOL).to_string()) }),
+                    1 if n > 0 => sm.set_source(rng.below(u64::from(n)) as u32, rng.pick_str(SOURCE_POOL)),
+                    _ if n > 0 => sm.set_source_contents(rng.below(u64::from(n)) as u32, if rng.bool() { Some(rng.pick_str(CONTENT_POOL)) } else { None }),
+                    _ => {}
+                }
+            }
+            (DecodedMap::Regular(sm), "setters".into(), m.json())
+        }
         0 => {
             let m = gen_map(rng, &cfg);
             let sm = m.build_raw(rng, true);
